@@ -49,8 +49,10 @@ Fmts == { Fmt(<<"{", "m", "}">>, Rec.msg, NoParams), Fmt(<<"{", "m", "e", "s", "
           Fmt(<<"{", "i", "}">>, <<"<tid>">>, NoParams), Fmt(<<"{", "t", "i", "d", "}">>, <<"<tid>">>, NoParams),
           Fmt(<<"{", "d", "(", "x", "y", ")", "}">>, <<"x", "y">>, NoParams),
           Fmt(<<"{", "d", "a", "t", "e", "(", "x", "\\", ")", "y", ")", "(", "u", "t", "c", ")", "}">>, <<"x", ")", "y">>, NoParams),
-          Fmt(<<"{", "d", "(", "%", "Y", ")", "(", "l", "o", "c", "a", "l", ")", "}">>, <<"<date>">>, NoParams),
-          Fmt(<<"{", "d", "}">>, <<"<date>">>, NoParams),
+          Fmt(<<"{", "d", "(", "%", "Y", ")", "(", "l", "o", "c", "a", "l", ")", "}">>, <<"<date>", "<fmt>", "%", "Y", "</fmt>", "<local>">>, NoParams),
+          Fmt(<<"{", "d", "(", "%", "H", ":", "%", "M", ")", "(", "u", "t", "c", ")", "}">>, <<"<date>", "<fmt>", "%", "H", ":", "%", "M", "</fmt>", "<utc>">>, NoParams),
+          Fmt(<<"{", "d", "a", "t", "e", "(", "%", "d", "-", "%", "H", ")", "}">>, <<"<date>", "<fmt>", "%", "d", "-", "%", "H", "</fmt>", "<local>">>, NoParams),
+          Fmt(<<"{", "d", "}">>, <<"<date>", "<fmt>", "%", "+", "</fmt>", "<local>">>, NoParams),
           Fmt(<<"{", "X", "(", "k", ")", "}">>, MdcVal(<<"k">>, <<>>), NoParams),
           Fmt(<<"{", "m", "d", "c", "(", "z", "z", ")", "(", "q", ")", "}">>, MdcVal(<<"z", "z">>, <<"q">>), NoParams),
           Fmt(<<"{", "X", "(", "z", ")", "}">>, MdcVal(<<"z">>, <<>>), NoParams),
